@@ -15,6 +15,33 @@ E1_TECH = ('bounded symbolic execution of the real yatiml/PyYAML code with '
            'bounds), counterexamples replayed on the unstubbed public API')
 
 CHECKS = {
+    'C04': dict(
+        text='Same symbolic document space as C01 on models with Any / '
+             'untyped / _yatiml_extra positions and a registered class (Trap) '
+             'that no typed position admits: tags (registered class names, a '
+             'free tag, !!python/*, core tags) are injected at every node; '
+             'evaluated on return AND on exception: Trap is never '
+             'constructed, every __init__ got conforming arguments, values '
+             'below Any/extra positions are plain data, the canary module is '
+             'never imported.',
+        design='4/C04'),
+    'C15': dict(
+        text='Bounded model checking of the four structural transforms and '
+             'the two key-renaming helpers on symbolic node shapes (attribute '
+             'absent/scalar/sequence/mapping, items of 12 kinds, equal or '
+             'distinct ids, value attribute, strict) against a reference '
+             'written from the docstrings: documented shape, unchanged when '
+             'not applicable, SeasoningError only for duplicate keys in '
+             'strict mode, both inverse laws, dash/underscore laws over free '
+             'symbolic key strings.',
+        design='4/C15'),
+    'C16': dict(
+        text='Bounded model checking of UnknownNode.require_* on nodes with '
+             'FREE symbolic tags and a FREE attribute name against predicates '
+             'written from the docstrings (require_attribute with 16 types '
+             'goes through the real Recognizer); RecognitionError is the only '
+             'exception allowed and the node snapshot must be unchanged.',
+        design='4/C16'),
     'C01': dict(
         text='Bounded model checking of the real load pipeline driven through '
              'the public load function (composer stubbed): for 16 class '
